@@ -240,6 +240,18 @@ def run(rep):
     return {"tree": tree, "nasim_file": nasim_file, "reproduced": not mism, "mismatches": mism, "actual": actual}
 
 
+if __name__ == "__main__" and len(sys.argv) > 2 and sys.argv[1] == "--batch-actual":
+    # run the real code on every input and print what it computed (used by the run-time contract fallback)
+    reps = json.load(open(sys.argv[2]))
+    outs = []
+    for rep in reps:
+        try:
+            outs.append(run(rep)["actual"])
+        except Exception as e:
+            outs.append({"exception": f"harness:{type(e).__name__}: {e}"})
+    print(json.dumps(outs))
+    sys.exit(0)
+
 if __name__ == "__main__" and len(sys.argv) > 2 and sys.argv[1] == "--batch":
     reps = json.load(open(sys.argv[2]))
     outs = []
